@@ -189,7 +189,7 @@ def run(ctx):
     from harness.common.lean import LeanBatch
     rng = ctx.rng
     hrng = ctx.sub_rng("heap")
-    heap_budget = [ctx.budget(700, 6000)]
+    heap_budget = [ctx.budget(500, 5000)]
     pending_heap = []
     plan = {"numpy": ctx.budget(500, 14000), "numba-S": ctx.budget(90, 2400), "numba-J": ctx.budget(14, 320)}
     groups = {m: [gen_group(rng, ctx.hist, m, 120 if m != "numba-J" else 40,
